@@ -57,6 +57,7 @@ fn main() {
         "C15" => run_property(props::c15_merkle::C15, run_args),
         "C18" => run_property(props::c18_standstill::C18, run_args),
         "C19" => run_property(props::c19_wire::C19, run_args),
+        "C20" => run_property(props::c20_state::C20, run_args),
         _ => {
             eprintln!("unknown property id {id}");
             2
